@@ -1,10 +1,10 @@
 (* C14: the RBAC rule set produced by [translate] against the precedence decision.
 
    Main results
-     equiv_partial      eval_rbac (translate ..) = intention_allows ..   under source_monotone and literal names
+     equiv_partial      eval_rbac (translate ..) = intention_allows ..   under source_monotone (names are arbitrary: they are quoted)
      nondefault_kept    without source_monotone: whenever precedence yields the NON-default action, so does the RBAC
      superset_witness   the full statement fails: `* -> web` deny above `api -> *` allow
-     regex_witness      the full statement fails: `web.v1` also admits `webxv1`
+     regex_regression   `web.v1` no longer admits `webxv1` (repaired in /repo d976793)
      same_destination_monotone   source_monotone holds when all intentions name one destination *)
 From Coq Require Import Btauto Sorted.
 From Verif Require Import Base.Prelude.
@@ -121,9 +121,10 @@ Section Conn.
   Variable cfg : config.
   Variable c : conn.
 
+  (* a configured trust domain, read as regex text, matches a presented host iff it IS that host *)
   Definition host_ok (t : string) : Prop :=
-    (raw_match t (u_host (cn_tls c)) = true -> t = u_host (cn_tls c)) /\
-    (forall u, cn_xfcc c = Some u -> raw_match t (u_host u) = true -> t = u_host u).
+    raw_match t (u_host (cn_tls c)) = (t =? u_host (cn_tls c)) /\
+    (forall u, cn_xfcc c = Some u -> raw_match t (u_host u) = (t =? u_host u)).
 
   Let ctls (s : rsvc) : bool := covers_uri s (cn_tls c).
   Let cx (s : rsvc) : bool := match cn_xfcc c with Some u => covers_uri s u | None => false end.
@@ -846,8 +847,9 @@ Definition well_formed (cfg : config) (ixns : list intention) : Prop :=
   /\ (forall a b, In a (sources cfg ixns) -> In b (sources cfg ixns) ->
                   s_peer a <> s_peer b -> s_td a <> s_td b).
 
-(* no name, namespace or partition of a source contains a regex metacharacter *)
-Definition names_literal (cfg : config) (ixns : list intention) : Prop :=
+(* no partition a source stands for contains a regex metacharacter (partitions are still
+   spliced into the pattern unquoted; namespaces and service names are quoted) *)
+Definition partitions_literal (cfg : config) (ixns : list intention) : Prop :=
   forall s, In s (sources cfg ixns) -> lit_src s.
 
 (* the trust domain of every presented URI was authenticated: a configured trust domain read
@@ -861,7 +863,7 @@ Definition source_monotone (cfg : config) (ixns : list intention) : Prop :=
                   ixn_source_matches a b = true -> ixn_less i j = true.
 
 Lemma srcs_ok_sources cfg ixns c :
-  well_formed cfg ixns -> names_literal cfg ixns -> hosts_authentic cfg ixns c ->
+  well_formed cfg ixns -> partitions_literal cfg ixns -> hosts_authentic cfg ixns c ->
   srcs_ok c (sources cfg ixns).
 Proof.
   intros (_ & Hwf & Hsep) Hlit (_ & Hhost). split; auto.
@@ -897,7 +899,7 @@ Section Main.
   Hypothesis re_methods : re_alternation re.
   Variables (cfg : config) (ixns : list intention) (d http : bool) (c : conn) (q : request).
   Hypothesis Hwf : well_formed cfg ixns.
-  Hypothesis Hlit : names_literal cfg ixns.
+  Hypothesis Hlit : partitions_literal cfg ixns.
   Hypothesis Hhost : hosts_authentic cfg ixns c.
 
   Let xf := expect_xfcc cfg ixns http.
@@ -1070,22 +1072,23 @@ Lemma superset_witness_default_allow re :
   /\ intention_allows re w_cfg w_superset' true false (w_conn "api") w_req = true.
 Proof. split; vm_compute; reflexivity. Qed.
 
-(* (8) `web.v1 -> db` allow, default deny: the caller `webxv1` is allowed as well *)
+(* (8, repaired in /repo d976793) `web.v1 -> db` allow, default deny: `webxv1` is no longer
+   admitted, `web.v1` still is *)
 Definition w_regex : list intention := [w_ixn "web.v1" "db" true].
 
-Lemma regex_witness re :
-  eval_rbac re (translate w_cfg w_regex false false) (w_conn "webxv1") w_req = true
-  /\ intention_allows re w_cfg w_regex false false (w_conn "webxv1") w_req = false.
-Proof. split; vm_compute; reflexivity. Qed.
+Lemma regex_regression re :
+  eval_rbac re (translate w_cfg w_regex false false) (w_conn "webxv1") w_req = false
+  /\ intention_allows re w_cfg w_regex false false (w_conn "webxv1") w_req = false
+  /\ eval_rbac re (translate w_cfg w_regex false false) (w_conn "web.v1") w_req = true
+  /\ intention_allows re w_cfg w_regex false false (w_conn "web.v1") w_req = true.
+Proof. repeat split; vm_compute; reflexivity. Qed.
 
 (* the witnesses satisfy every hypothesis of equiv_partial except the one they are meant to break *)
-Lemma w_host_ok svc t : host_ok (w_conn svc) t <-> (raw_match t "test.consul" = true -> t = "test.consul").
-Proof.
-  unfold host_ok, w_conn. cbn. split; [tauto|]. intros H. split; [exact H|]. intros u [=].
-Qed.
+Lemma w_host_ok svc t : raw_match t "test.consul" = (t =? "test.consul") -> host_ok (w_conn svc) t.
+Proof. intros H. unfold host_ok, w_conn. cbn. split; [exact H|]. intros u [=]. Qed.
 
 Lemma superset_witness_hyps :
-  well_formed w_cfg w_superset /\ names_literal w_cfg w_superset
+  well_formed w_cfg w_superset /\ partitions_literal w_cfg w_superset
   /\ hosts_authentic w_cfg w_superset (w_conn "api") /\ ~ source_monotone w_cfg w_superset.
 Proof.
   split; [|split; [|split]].
@@ -1096,17 +1099,17 @@ Proof.
       cbn in Ha, Hb. destruct Ha as [<-|[<-|[]]]; destruct Hb as [<-|[<-|[]]]; reflexivity.
   - intros s Hs. cbn in Hs. destruct Hs as [<-|[<-|[]]]; repeat split; reflexivity.
   - split.
-    + apply w_host_ok. intros _. reflexivity.
-    + intros s Hs. cbn in Hs. destruct Hs as [<-|[<-|[]]]; apply w_host_ok; intros _; reflexivity.
+    + apply w_host_ok. reflexivity.
+    + intros s Hs. cbn in Hs. destruct Hs as [<-|[<-|[]]]; apply w_host_ok; reflexivity.
   - intros H.
     specialize (H (w_ixn "api" "*" true) (w_ixn "*" "web" false) _ _
                   (or_intror (or_introl eq_refl)) (or_introl eq_refl) eq_refl eq_refl eq_refl).
     vm_compute in H. discriminate.
 Qed.
 
-Lemma regex_witness_hyps :
-  well_formed w_cfg w_regex /\ hosts_authentic w_cfg w_regex (w_conn "webxv1")
-  /\ source_monotone w_cfg w_regex /\ ~ names_literal w_cfg w_regex.
+Lemma regex_list_hyps :
+  well_formed w_cfg w_regex /\ partitions_literal w_cfg w_regex
+  /\ hosts_authentic w_cfg w_regex (w_conn "webxv1") /\ source_monotone w_cfg w_regex.
 Proof.
   split; [|split; [|split]].
   - split; [|split].
@@ -1114,11 +1117,11 @@ Proof.
     + intros s Hs. cbn in Hs. destruct Hs as [<-|[]]; repeat split; cbn; try discriminate; reflexivity.
     + intros a b Ha Hb Hp. exfalso. apply Hp.
       cbn in Ha, Hb. destruct Ha as [<-|[]]; destruct Hb as [<-|[]]; reflexivity.
+  - intros s Hs. cbn in Hs. destruct Hs as [<-|[]]; reflexivity.
   - split.
-    + apply w_host_ok. intros _. reflexivity.
-    + intros s Hs. cbn in Hs. destruct Hs as [<-|[]]; apply w_host_ok; intros _; reflexivity.
+    + apply w_host_ok. reflexivity.
+    + intros s Hs. cbn in Hs. destruct Hs as [<-|[]]; apply w_host_ok; reflexivity.
   - intros i j a b [<-|[]] [<-|[]] [= <-] [= <-] H. vm_compute in H. discriminate.
-  - intros H. destruct (H _ (or_introl eq_refl)) as (_ & _ & H3). vm_compute in H3. discriminate.
 Qed.
 
 (* non-vacuity of equiv_partial: a set with wildcard, exact, peered and L7 intentions for one
@@ -1136,12 +1139,12 @@ Definition ex_conn : conn :=
        (Some (Uri "peer1.consul" ["ap"; "part1"; "ns"; "default"; "dc"; "dc2"; "svc"; "api"])).
 
 Lemma ex_host_ok t :
-  (raw_match t "local.consul" = true -> t = "local.consul") ->
-  (raw_match t "peer1.consul" = true -> t = "peer1.consul") -> host_ok ex_conn t.
+  raw_match t "local.consul" = (t =? "local.consul") ->
+  raw_match t "peer1.consul" = (t =? "peer1.consul") -> host_ok ex_conn t.
 Proof. intros H1 H2. split; [exact H1|]. intros u [= <-]. exact H2. Qed.
 
 Lemma example_hyps :
-  well_formed ex_cfg ex_ixns /\ names_literal ex_cfg ex_ixns
+  well_formed ex_cfg ex_ixns /\ partitions_literal ex_cfg ex_ixns
   /\ hosts_authentic ex_cfg ex_ixns ex_conn /\ source_monotone ex_cfg ex_ixns.
 Proof.
   split; [|split; [|split]].
@@ -1155,9 +1158,9 @@ Proof.
       destruct Ha as [<-|[<-|[<-|[<-|[]]]]]; destruct Hb as [<-|[<-|[<-|[<-|[]]]]]; cbn; intros Hp; try discriminate; exfalso; apply Hp; reflexivity.
   - intros s Hs. cbn in Hs. destruct Hs as [<-|[<-|[<-|[<-|[]]]]]; repeat split; reflexivity.
   - split.
-    + apply ex_host_ok; cbn; [reflexivity|discriminate].
+    + apply ex_host_ok; reflexivity.
     + intros s Hs. cbn in Hs.
-      destruct Hs as [<-|[<-|[<-|[<-|[]]]]]; apply ex_host_ok; cbn; try reflexivity; discriminate.
+      destruct Hs as [<-|[<-|[<-|[<-|[]]]]]; apply ex_host_ok; reflexivity.
   - apply same_destination_monotone.
     + intros i [<-|[<-|[<-|[<-|[]]]]]; reflexivity.
     + intros i j Hi Hj.
